@@ -378,7 +378,7 @@ x := [ 1,2,3,
 y := { "a":1,"b":2,
   "c" : [ {"d":null} ] }
 `,
-	`a := 1;b := 2;c := a+b*2-(a-(b-1));If A>0 AND not (b<0 OR c==0) { Log(r"raw {{x}}",'single "q"') } ELSE { return }`,
+	`a := 1;b := 2;c := a+b*2-(a-(b-1));If A>0 AND not (b<0 OR c==0) { Log(r"raw {{x}}",'single "q"') } ELSE { return 0 }`,
 }
 
 func corpusCount(c *core.Ctx) int { return len(corpus) }
